@@ -109,6 +109,24 @@ def walk(top, variables=None):
 
 
 @contextmanager
+def atomic_write(filename, mode='w'):
+    # Write to a temporary file and rename it into place, so that an
+    # interrupted or failed run never leaves a truncated file behind (a build
+    # backend would happily execute the fragment of a build file).
+    tmp = filename + '.tmp'
+    try:
+        with open(tmp, mode) as f:
+            yield f
+        os.replace(tmp, filename)
+    except BaseException:
+        try:
+            os.remove(tmp)
+        except OSError:
+            pass
+        raise
+
+
+@contextmanager
 def pushd(dirname, makedirs=False, mode=0o777, exist_ok=False):
     old = os.getcwd()
     if makedirs:
